@@ -183,9 +183,9 @@ Definition tags_of (p : pushed) (tags : list arow) : Prop :=
 Definition span_rows_of (p : pushed) (sr : span_rows) : Prop := row_of p (fst sr) /\ tags_of p (snd sr).
 
 (* what the read path returns for the stored row of a pushed span *)
-Definition reads_back (check_parent : bool) (p : pushed) (o : option rspan) : Prop :=
+Definition reads_back (p : pushed) (o : option rspan) : Prop :=
   exists r, o = Some r /\
-    rs_trace r = p_trace p /\ rs_span r = p_span p /\ (check_parent = true -> rs_parent r = p_parent p) /\
+    rs_trace r = p_trace p /\ rs_span r = p_span p /\ rs_parent r = p_parent p /\
     rs_name r = p_name p /\ rs_start r = to_u64 (p_ts p) /\ rs_end r = to_u64 (wrap64 (p_ts p + p_dur p)) /\
     (forall k v, In (k, v) (p_attrs p) -> In (k, v) (rs_attrs r)) /\
     (p_ordered p = false -> rs_attrs r = p_attrs p) /\
@@ -697,10 +697,30 @@ Proof.
   - unfold str_tags. destruct (jget "tags" fs) as [[]|]; try reflexivity. apply read_tags_spec.
 Qed.
 
-Lemma hex_decode_len16 s b : String.length s = 16%nat -> decode_hex_str s 16 = Some b -> hex_decode s = Some b.
+Lemma hex_decode_length : forall b s, hex_decode s = Some b -> String.length s = (2 * String.length b)%nat.
 Proof.
-  intros Hl. unfold decode_hex_str. destruct (String.eqb_spec s "") as [->|_]; [discriminate|].
-  rewrite Hl. cbn [Nat.ltb Nat.leb]. rewrite <- Hl, substring_all. tauto.
+  induction b as [|c b IH]; intros s H.
+  - destruct s as [|a [|a' r]]; cbn [hex_decode] in H; [reflexivity|discriminate|].
+    destruct (hexval a), (hexval a'), (hex_decode r); discriminate.
+  - destruct s as [|a [|a' r]]; cbn [hex_decode] in H; try discriminate.
+    destruct (hexval a), (hexval a'); try discriminate. destruct (hex_decode r) as [t|] eqn:E; [|discriminate].
+    inversion H; subst. cbn [String.length]. rewrite (IH r E). lia.
+Qed.
+Lemma string_app_length a b : String.length (a ++ b) = (String.length a + String.length b)%nat.
+Proof. induction a as [|c a IH]; cbn; [reflexivity|]. now rewrite IH. Qed.
+Lemma zeros_length n : String.length (zeros n) = n.
+Proof. induction n as [|n IH]; cbn; [reflexivity|]. now rewrite IH. Qed.
+Lemma substring_length : forall n s, (n <= String.length s)%nat -> String.length (substring 0 n s) = n.
+Proof.
+  induction n as [|n IH]; intros s H; destruct s as [|c s]; cbn in *; try reflexivity; try lia. rewrite IH; lia.
+Qed.
+(* a decoded 16-digit id always has 8 bytes *)
+Lemma decode_hex16_length s b : decode_hex_str s 16 = Some b -> String.length b = 8%nat.
+Proof.
+  unfold decode_hex_str. destruct (String.eqb s ""); [discriminate|]. intros H. apply hex_decode_length in H.
+  rewrite substring_length in H; [lia|].
+  destruct (Nat.ltb_spec (String.length s) 16) as [Hlt|Hge]; [|exact Hge].
+  rewrite string_app_length, zeros_length. lia.
 Qed.
 
 Lemma read_endpoint_synth name fs :
@@ -723,13 +743,13 @@ Proof. unfold synth_key. apply orb_true_intro. right. reflexivity. Qed.
 Lemma zipkin_read_one es_all i e sr st' p :
   decode_span fixed (set_payload z_init (PRef i)) e = Some (sr, st') -> z_wellformed e = true -> zipkin_pushed e = Some p ->
   nth_error es_all (N.to_nat i) = Some e ->
-  reads_back (parent_len_ok e) p (read_row fixed es_all (fst sr)).
+  reads_back p (read_row fixed es_all (fst sr)).
 Proof.
   intros Hd Hwf Hp Hn. destruct (decode_span_pushed _ _ _ _ _ Hd Hwf Hp) as [[Hrow _] [Hpt [Hpl [_ _]]]].
   unfold read_row. rewrite Hpt, Hpl, Hn. cbn [Z.eqb Pos.eqb].
   destruct e as [| | | | |fs|]; try discriminate Hp.
   destruct (zipkin_pushed_fields _ _ Hp) as [Fname [Fpar [Fattrs Ford]]].
-  destruct Hrow as [Rt [Rs [_ [_ [Rts [Rdur [_ [Lt Ls]]]]]]]].
+  destruct Hrow as [Rt [Rs [Rpar [_ [Rts [Rdur [_ [Lt Ls]]]]]]]].
   unfold parse_zipkin. rewrite Lt, Ls. cbn [Nat.ltb Nat.leb orb].
   pose proof (read_endpoint_synth "localEndpoint" fs synth_local) as Sl.
   pose proof (read_endpoint_synth "remoteEndpoint" fs synth_remote) as Sr.
@@ -742,9 +762,10 @@ Proof.
   eexists. split; [reflexivity|]. cbn [rs_trace rs_span rs_parent rs_name rs_start rs_end rs_attrs].
   rewrite (substring_full 16 _ Lt), (substring_full 8 _ Ls), Rts, Rdur.
   split; [exact Rt|]. split; [exact Rs|]. split.
-  - intros Hg. unfold parent_len_ok, read_parent, jget_str in *.
-    destruct (jget "parentId" fs) as [[]|]; try contradiction; [|now rewrite Fpar].
-    apply Nat.eqb_eq in Hg. rewrite Hg. cbn [Nat.eqb]. now rewrite (hex_decode_len16 _ _ Hg Fpar).
+  - cbn [fixed q_parent_payload negb andb]. rewrite Rpar. unfold read_parent, jget_str.
+    destruct (jget "parentId" fs) as [[]|]; try contradiction.
+    + rewrite (decode_hex16_length _ _ Fpar). reflexivity.
+    + rewrite Fpar. reflexivity.
   - split; [now rewrite Fname|]. split; [reflexivity|]. split; [reflexivity|]. split.
     + intros k v Hin. rewrite Fattrs in Hin. apply in_or_app. left. exact Hin.
     + split; [rewrite Ford; discriminate|]. intros _. exists (la ++ ra ++ [(k_service, AStr svc0)])%list.
@@ -755,7 +776,7 @@ Qed.
 Lemma zipkin_read_from nd es_all es : forall i st rows ps,
   (forall k e, nth_error es k = Some e -> nth_error es_all (N.to_nat i + k) = Some e) ->
   zipkin_from fixed nd i st es = Some rows -> forallb z_wellformed es = true -> mapM zipkin_pushed es = Some ps ->
-  Forall2 (fun pe sr => reads_back (parent_len_ok (snd pe)) (fst pe) (read_row fixed es_all (fst sr))) (combine ps es) rows.
+  Forall2 (fun p sr => reads_back p (read_row fixed es_all (fst sr))) ps rows.
 Proof.
   induction es as [|e es IH]; intros i st rows ps Hidx Hd Hwf Hp.
   - cbn in Hd, Hp. inversion Hd; inversion Hp. constructor.
@@ -765,8 +786,8 @@ Proof.
     cbn [forallb] in Hwf. apply andb_prop in Hwf. destruct Hwf as [Hwe Hwf].
     cbn [mapM] in Hp. destruct (zipkin_pushed e) as [p|] eqn:Epu; [|discriminate].
     destruct (mapM zipkin_pushed es) as [ps'|] eqn:Eps; [|discriminate]. inversion Hp; subst ps; clear Hp.
-    cbn [combine]. constructor.
-    + cbn [fst snd]. apply (zipkin_read_one es_all i e sr st' p Ed Hwe Epu).
+    constructor.
+    + apply (zipkin_read_one es_all i e sr st' p Ed Hwe Epu).
       specialize (Hidx 0%nat e eq_refl). now rewrite Nat.add_0_r in Hidx.
     + apply (IH (i + 1)%N st' rs ps'); try assumption; [|reflexivity].
       intros k e' Hk. specialize (Hidx (S k) e' Hk). replace (N.to_nat (i + 1) + k)%nat with (N.to_nat i + S k)%nat by lia. exact Hidx.
@@ -774,7 +795,7 @@ Qed.
 
 Lemma zipkin_read_back nd es rows ps :
   zipkin_decode fixed nd es = Some rows -> pushed_of (InZipkin nd es) = Some ps ->
-  Forall2 (fun pe sr => reads_back (parent_len_ok (snd pe)) (fst pe) (read_row fixed es (fst sr))) (combine ps es) rows.
+  Forall2 (fun p sr => reads_back p (read_row fixed es (fst sr))) ps rows.
 Proof.
   cbn [pushed_of]. destruct (forallb z_wellformed es) eqn:Hwf; [|discriminate]. intros Hd Hp.
   apply (zipkin_read_from nd es es 0%N z_init rows ps); try assumption. intros k e H. exact H.
@@ -787,7 +808,7 @@ Definition otlp_times_ok (b : list ores) : Prop :=
 Lemma otlp_read_one ra s sr p :
   otlp_span fixed ra s = Some sr -> otlp_pushed ra s = Some p ->
   0 <= o_start s < two64 -> 0 <= o_end s < two64 ->
-  reads_back true p (read_row fixed [] (fst sr)).
+  reads_back p (read_row fixed [] (fst sr)).
 Proof.
   intros Hs Hp Hst Hen.
   destruct (otlp_span_pushed _ _ _ _ Hs Hp) as [_ [Hpt [Hpl [Hattrs [Hord [Ht [Hsp [Hpa [Hn [Hts Hdur]]]]]]]]]].
@@ -807,7 +828,7 @@ Qed.
 
 Lemma otlp_read_back b rows ps :
   otlp_decode fixed b = Some rows -> pushed_of (InOtlp b) = Some ps -> otlp_times_ok b ->
-  Forall2 (fun p sr => reads_back true p (read_row fixed [] (fst sr))) ps rows.
+  Forall2 (fun p sr => reads_back p (read_row fixed [] (fst sr))) ps rows.
 Proof.
   cbn [pushed_of]. destruct (forallb r_has_res b) eqn:Hres; [|discriminate].
   rewrite (otlp_decode_flat b Hres). unfold otlp_times_ok. generalize (batch_spans b). intros l.
@@ -892,48 +913,19 @@ Qed.
 (* ================================================================== read_back for every request *)
 Definition in_range (i : input) : Prop := match i with InOtlp b => otlp_times_ok b | InZipkin _ _ => True end.
 
-Definition read_back_for (guard : input -> Prop) : Prop :=
-  forall inp rows ps, decode fixed inp = Some rows -> pushed_of inp = Some ps -> in_range inp -> guard inp ->
-    Forall2 (fun p sr => reads_back true p (read_row fixed (in_elems inp) (fst sr))) ps rows.
-
-Definition parents_16 (i : input) : Prop := forallb parent_len_ok (in_elems i) = true.
-
-Lemma Forall2_combine_guard {A B C} (R : bool -> A -> C -> Prop) (g : B -> bool) :
-  forall (ps : list A) (es : list B) (rows : list C),
-  List.length ps = List.length es -> forallb g es = true ->
-  Forall2 (fun pe sr => R (g (snd pe)) (fst pe) sr) (combine ps es) rows -> Forall2 (fun p sr => R true p sr) ps rows.
+Lemma read_back_l : forall inp rows ps,
+  decode fixed inp = Some rows -> pushed_of inp = Some ps -> in_range inp ->
+  Forall2 (fun p sr => reads_back p (read_row fixed (in_elems inp) (fst sr))) ps rows.
 Proof.
-  induction ps as [|p ps IH]; intros es rows Hl Hg F; destruct es as [|e es]; try discriminate Hl.
-  - cbn in F. inversion F. constructor.
-  - cbn [combine] in F. inversion F as [|? sr ? rs Hh Ht]; subst. cbn [forallb] in Hg. apply andb_prop in Hg. destruct Hg as [Hg1 Hg2].
-    cbn [fst snd] in Hh. rewrite Hg1 in Hh. constructor; [exact Hh|]. apply (IH es rs); [cbn in Hl; lia|exact Hg2|exact Ht].
-Qed.
-
-Lemma read_back_partial_l : read_back_for parents_16.
-Proof.
-  intros inp rows ps Hd Hp Hr Hg. destruct inp as [b|nd es]; cbn [decode in_elems] in *.
+  intros inp rows ps Hd Hp Hr. destruct inp as [b|nd es]; cbn [decode in_elems] in *.
   - apply (otlp_read_back b rows ps Hd Hp Hr).
-  - pose proof (zipkin_read_back nd es rows ps Hd Hp) as F.
-    cbn [pushed_of] in Hp. destruct (forallb z_wellformed es); [|discriminate].
-    apply (Forall2_combine_guard (fun g p sr => reads_back g p (read_row fixed es (fst sr))) parent_len_ok ps es rows);
-      [apply (mapM_length _ _ _ Hp)|exact Hg|exact F].
+  - apply (zipkin_read_back nd es rows ps Hd Hp).
 Qed.
 
-(* witness: a Zipkin span whose parentId has 3 hex digits is stored with parent 0x0000000000000abc, and read back without parent *)
+(* a Zipkin span whose parentId has 3 hex digits: stored with parent 0x0000000000000abc *)
 Definition short_parent_span : jv :=
   JObj [("traceId", JStr "0af7651916cd43dd8448eb211c80319c"); ("id", JStr "b7ad6b7169203331"); ("parentId", JStr "abc");
         ("name", JStr "op"); ("timestamp", JInt 1727700000000000); ("duration", JInt 5)].
-
-Lemma read_back_refuted_l : ~ read_back_for (fun _ => True).
-Proof.
-  intros H.
-  destruct (decode fixed (InZipkin false [short_parent_span])) as [rows|] eqn:Ed; [|vm_compute in Ed; discriminate].
-  destruct (pushed_of (InZipkin false [short_parent_span])) as [ps|] eqn:Ep; [|vm_compute in Ep; discriminate].
-  specialize (H _ _ _ Ed Ep I I).
-  vm_compute in Ed, Ep. inversion Ed; inversion Ep; subst; clear Ed Ep.
-  inversion H as [|? ? ? ? Hh _]; subst. destruct Hh as [r [Hr [_ [_ [Hpar _]]]]].
-  vm_compute in Hr. inversion Hr; subst r. specialize (Hpar eq_refl). vm_compute in Hpar. discriminate.
-Qed.
 
 (* ================================================================== examples: hypotheses are satisfiable, legacy witnesses *)
 Definition model_case (q : quirks) (inp : input) : case :=
@@ -964,43 +956,48 @@ Definition ex_zipkin (nd : bool) : input :=
 
 Example ex_otlp_accepted :
   exists rows ps, decode fixed ex_otlp = Some rows /\ pushed_of ex_otlp = Some ps /\ List.length rows = 2%nat /\
-                  in_range ex_otlp /\ parents_16 ex_otlp /\ spec_ok true (model_case fixed ex_otlp) = true.
+                  in_range ex_otlp /\ spec_ok (model_case fixed ex_otlp) = true.
 Proof.
   destruct (decode fixed ex_otlp) as [rows|] eqn:Ed; [|vm_compute in Ed; discriminate].
   destruct (pushed_of ex_otlp) as [ps|] eqn:Ep; [|vm_compute in Ep; discriminate].
   exists rows, ps. split; [reflexivity|]. split; [reflexivity|]. split; [vm_compute in Ed; inversion Ed; reflexivity|].
-  split; [|split; [reflexivity|vm_compute; reflexivity]].
+  split; [|vm_compute; reflexivity].
   intros x Hx. vm_compute in Hx. destruct Hx as [<-|[<-|[]]]; vm_compute; repeat split; discriminate.
 Qed.
 
 Example ex_zipkin_accepted : forall nd,
   exists rows ps, decode fixed (ex_zipkin nd) = Some rows /\ pushed_of (ex_zipkin nd) = Some ps /\ List.length rows = 2%nat /\
-                  parents_16 (ex_zipkin nd) /\ spec_ok true (model_case fixed (ex_zipkin nd)) = true.
+                  spec_ok (model_case fixed (ex_zipkin nd)) = true.
 Proof.
   intros nd. destruct nd.
   - destruct (decode fixed (ex_zipkin true)) as [rows|] eqn:Ed; [|vm_compute in Ed; discriminate].
     destruct (pushed_of (ex_zipkin true)) as [ps|] eqn:Ep; [|vm_compute in Ep; discriminate].
     exists rows, ps. split; [reflexivity|]. split; [reflexivity|]. split; [vm_compute in Ed; inversion Ed; reflexivity|].
-    split; [reflexivity|vm_compute; reflexivity].
+    vm_compute; reflexivity.
   - destruct (decode fixed (ex_zipkin false)) as [rows|] eqn:Ed; [|vm_compute in Ed; discriminate].
     destruct (pushed_of (ex_zipkin false)) as [ps|] eqn:Ep; [|vm_compute in Ep; discriminate].
     exists rows, ps. split; [reflexivity|]. split; [reflexivity|]. split; [vm_compute in Ed; inversion Ed; reflexivity|].
-    split; [reflexivity|vm_compute; reflexivity].
+    vm_compute; reflexivity.
 Qed.
 
 (* the behaviour before the four repairs violates the property on these very requests *)
 Example legacy_list_attrs_dropped :
-  spec_ok false (model_case {| q_list_drop := true; q_remote_inverted := false; q_nd_stateful := false; q_peer_first := false |} ex_otlp) = false.
+  spec_ok (model_case {| q_list_drop := true; q_remote_inverted := false; q_nd_stateful := false; q_peer_first := false; q_parent_payload := false |} ex_otlp) = false.
 Proof. vm_compute. reflexivity. Qed.
 Example legacy_peer_service_rewrites :
-  spec_ok false (model_case {| q_list_drop := false; q_remote_inverted := false; q_nd_stateful := false; q_peer_first := true |} ex_otlp) = false.
+  spec_ok (model_case {| q_list_drop := false; q_remote_inverted := false; q_nd_stateful := false; q_peer_first := true; q_parent_payload := false |} ex_otlp) = false.
 Proof. vm_compute. reflexivity. Qed.
 Example legacy_remote_overrides_local :
-  spec_ok false (model_case {| q_list_drop := false; q_remote_inverted := true; q_nd_stateful := false; q_peer_first := false |} (ex_zipkin false)) = false.
+  spec_ok (model_case {| q_list_drop := false; q_remote_inverted := true; q_nd_stateful := false; q_peer_first := false; q_parent_payload := false |} (ex_zipkin false)) = false.
 Proof. vm_compute. reflexivity. Qed.
+Example legacy_short_parent_lost :
+  spec_ok (model_case {| q_list_drop := false; q_remote_inverted := false; q_nd_stateful := false; q_peer_first := false; q_parent_payload := true |}
+                      (InZipkin false [short_parent_span])) = false
+  /\ spec_ok (model_case fixed (InZipkin false [short_parent_span])) = true.
+Proof. vm_compute. split; reflexivity. Qed.
 Example legacy_ndjson_state :
-  spec_ok false (model_case {| q_list_drop := false; q_remote_inverted := false; q_nd_stateful := true; q_peer_first := false |} (ex_zipkin true)) = false
-  /\ spec_ok false (model_case {| q_list_drop := false; q_remote_inverted := false; q_nd_stateful := true; q_peer_first := false |} (ex_zipkin false)) = true.
+  spec_ok (model_case {| q_list_drop := false; q_remote_inverted := false; q_nd_stateful := true; q_peer_first := false; q_parent_payload := false |} (ex_zipkin true)) = false
+  /\ spec_ok (model_case {| q_list_drop := false; q_remote_inverted := false; q_nd_stateful := true; q_peer_first := false; q_parent_payload := false |} (ex_zipkin false)) = true.
 Proof. vm_compute. split; reflexivity. Qed.
 
 (* ================================================================== the check's oracle accepts the model's own output
@@ -1030,9 +1027,9 @@ Proof.
 Qed.
 
 (* per span: everything the oracle looks at *)
-Definition span_checked (inp : input) (elems : list jv) (idx : N) (g : bool) (p : pushed) (sr : span_rows) : Prop :=
+Definition span_checked (inp : input) (elems : list jv) (idx : N) (p : pushed) (sr : span_rows) : Prop :=
   row_ok inp idx p (fst sr) = true /\ tag_group_ok p (snd sr) = true /\
-  List.length (snd sr) = List.length (p_tags p) /\ read_ok g p (read_row fixed elems (fst sr)) = true.
+  List.length (snd sr) = List.length (p_tags p) /\ read_ok p (read_row fixed elems (fst sr)) = true.
 
 Lemma row_fields_ok inp idx p r : row_of p r -> payload_ok inp idx p r = true -> row_ok inp idx p r = true.
 Proof.
@@ -1050,13 +1047,10 @@ Proof.
   - fold kv_of. change (fun a : arow => (a_key a, a_val a)) with kv_of. rewrite Hkv. apply perm_eqb_refl, kv_eqb_refl.
 Qed.
 
-Lemma read_checked g p o : reads_back g p o -> read_ok g p o = true.
+Lemma read_checked p o : reads_back p o -> read_ok p o = true.
 Proof.
   intros [r [-> [H1 [H2 [H3 [H4 [H5 [H6 [_ [H8 H9]]]]]]]]]]. unfold read_ok.
-  rewrite H1, H2, H4, H5, H6, !String.eqb_refl, !Z.eqb_refl. cbn [andb].
-  assert (Hpar : negb g || String.eqb (rs_parent r) (p_parent p) = true).
-  { destruct g; [|reflexivity]. rewrite (H3 eq_refl). apply String.eqb_refl. }
-  rewrite Hpar. cbn [andb]. destruct (p_ordered p) eqn:Eo.
+  rewrite H1, H2, H3, H4, H5, H6, !String.eqb_refl, !Z.eqb_refl. cbn [andb]. destruct (p_ordered p) eqn:Eo.
   - destruct (H9 eq_refl) as [extra [-> Hex]].
     rewrite firstn_app, Nat.sub_diag, firstn_all. cbn [firstn]. rewrite app_nil_r.
     rewrite skipn_app, Nat.sub_diag, skipn_all. cbn [skipn app].
@@ -1067,7 +1061,7 @@ Qed.
 
 Lemma otlp_span_checked b ra s sr p :
   otlp_span fixed ra s = Some sr -> otlp_pushed ra s = Some p -> 0 <= o_start s < two64 -> 0 <= o_end s < two64 ->
-  forall idx, span_checked (InOtlp b) [] idx true p sr.
+  forall idx, span_checked (InOtlp b) [] idx p sr.
 Proof.
   intros Hs Hp Hst Hen idx. pose proof (otlp_read_one ra s sr p Hs Hp Hst Hen) as Hread.
   destruct (otlp_span_pushed _ _ _ _ Hs Hp) as [[Hrow _] [Hpt [Hpl [Hattrs [_ [Ht [Hsp [Hpa [Hn _]]]]]]]]].
@@ -1108,7 +1102,7 @@ Lemma zipkin_checked_from nd es_all es : forall i st rows ps,
   zipkin_from fixed nd i st es = Some rows -> forallb z_wellformed es = true -> mapM zipkin_pushed es = Some ps ->
   rows_ok (InZipkin nd es_all) i ps (map fst rows) = true /\
   Forall2 (fun p sr => tag_group_ok p (snd sr) = true /\ List.length (snd sr) = List.length (p_tags p)) ps rows /\
-  reads_ok false (map parent_len_ok es) ps (map (read_row fixed es_all) (map fst rows)) = true.
+  reads_ok ps (map (read_row fixed es_all) (map fst rows)) = true.
 Proof.
   induction es as [|e es IH]; intros i st rows ps Hidx Hd Hwf Hp.
   - cbn in Hd, Hp. inversion Hd; inversion Hp. cbn. split; [reflexivity|]. split; [constructor|reflexivity].
@@ -1125,16 +1119,16 @@ Proof.
     assert (Hidx' : forall k e', nth_error es k = Some e' -> nth_error es_all (N.to_nat (i + 1) + k) = Some e').
     { intros k e' Hk. specialize (Hidx (S k) e' Hk). replace (N.to_nat (i + 1) + k)%nat with (N.to_nat i + S k)%nat by lia. exact Hidx. }
     destruct (IH (i + 1)%N st' rs ps' Hidx' Er Hwf eq_refl) as [I1 [I2 I3]].
-    cbn [map rows_ok reads_ok]. split; [|split].
+    unfold reads_ok in *. cbn [map rows_ok all2]. split; [|split].
     + rewrite I1, andb_true_r. apply row_fields_ok; [exact Hrow|]. unfold payload_ok. rewrite Hpl, Hpt, N.eqb_refl. reflexivity.
     + constructor; [|exact I2]. split; [apply tag_group_checked; assumption|]. rewrite <- Hkv. now rewrite map_length.
-    + rewrite I3, andb_true_r. cbn [orb]. apply read_checked, Hread.
+    + rewrite I3, andb_true_r. apply read_checked, Hread.
 Qed.
 
 Lemma otlp_checked_all b : forall l rows ps,
   (forall x, In x l -> 0 <= o_start (snd x) < two64 /\ 0 <= o_end (snd x) < two64) ->
   mapM (fun x => otlp_span fixed (fst x) (snd x)) l = Some rows -> mapM (fun x => otlp_pushed (fst x) (snd x)) l = Some ps ->
-  Forall2 (fun p sr => forall i, span_checked (InOtlp b) [] i true p sr) ps rows.
+  Forall2 (fun p sr => forall i, span_checked (InOtlp b) [] i p sr) ps rows.
 Proof.
   induction l as [|[ra s] l IH]; intros rows ps Ht Hd Hp; cbn [mapM fst snd] in Hd, Hp.
   - inversion Hd; inversion Hp. constructor.
@@ -1147,29 +1141,23 @@ Proof.
     + apply IH; try reflexivity. intros x Hx. apply Ht. now right.
 Qed.
 
-Lemma reads_ok_otlp (ps : list pushed) (rows : list span_rows) (gs : list bool) :
-  List.length gs = List.length ps ->
-  Forall2 (fun p sr => read_ok true p (read_row fixed [] (fst sr)) = true) ps rows ->
-  reads_ok false gs ps (map (read_row fixed []) (map fst rows)) = true.
+Lemma reads_ok_otlp (ps : list pushed) (rows : list span_rows) :
+  Forall2 (fun p sr => read_ok p (read_row fixed [] (fst sr)) = true) ps rows ->
+  reads_ok ps (map (read_row fixed []) (map fst rows)) = true.
 Proof.
-  intros Hl F. revert gs Hl. induction F as [|p sr ps' rows' Hr _ IH]; intros gs Hl; destruct gs as [|g gs]; try discriminate Hl.
-  - reflexivity.
-  - cbn [map reads_ok orb]. rewrite IH by (cbn in Hl; lia). rewrite andb_true_r.
-    unfold read_ok in *. destruct (read_row fixed [] (fst sr)); [|discriminate]. destruct g; [exact Hr|].
-    cbn [negb orb]. revert Hr. cbn [negb orb]. 
-    repeat rewrite andb_true_iff. intros H. tauto.
+  intros F. unfold reads_ok. induction F as [|p sr ps' rows' Hr _ IH]; cbn [map all2]; [reflexivity|]. now rewrite Hr, IH.
 Qed.
 
 Lemma Forall2_imp {A B} (R S : A -> B -> Prop) a b : (forall x y, R x y -> S x y) -> Forall2 R a b -> Forall2 S a b.
 Proof. intros H F. induction F; constructor; auto. Qed.
 
-Theorem model_meets_spec_l : forall inp, in_range inp -> spec_ok false (model_case fixed inp) = true.
+Theorem model_meets_spec_l : forall inp, in_range inp -> spec_ok (model_case fixed inp) = true.
 Proof.
   intros inp Hr. unfold model_case. destruct (decode fixed inp) as [rows|] eqn:Ed; [|reflexivity].
   unfold spec_ok. cbn [c_err c_in c_rows c_tags c_read].
   destruct (pushed_of inp) as [ps|] eqn:Ep; [|reflexivity].
   destruct (forallb widths_ok ps); [|reflexivity].
-  destruct inp as [b|nd es]; cbn [decode in_elems in_range parent_guards] in *.
+  destruct inp as [b|nd es]; cbn [decode in_elems in_range] in *.
   - cbn [pushed_of] in Ep. destruct (forallb r_has_res b) eqn:Hres; [|discriminate].
     rewrite (otlp_decode_flat b Hres) in Ed.
     pose proof (otlp_checked_all b _ _ _ Hr Ed Ep) as F.
@@ -1177,10 +1165,10 @@ Proof.
       by (eapply Forall2_imp; [|exact F]; intros p sr H i; apply (H i)).
     assert (F2 : Forall2 (fun p sr => tag_group_ok p (snd sr) = true /\ List.length (snd sr) = List.length (p_tags p)) ps rows)
       by (eapply Forall2_imp; [|exact F]; intros p sr H; destruct (H 0%N) as [_ [H2 [H3 _]]]; tauto).
-    assert (F3 : Forall2 (fun p sr => read_ok true p (read_row fixed [] (fst sr)) = true) ps rows)
+    assert (F3 : Forall2 (fun p sr => read_ok p (read_row fixed [] (fst sr)) = true) ps rows)
       by (eapply Forall2_imp; [|exact F]; intros p sr H; destruct (H 0%N) as [_ [_ [_ H4]]]; exact H4).
     rewrite (rows_ok_all _ _ _ _ F1), (tags_ok_all _ _ F2). cbn [andb].
-    apply reads_ok_otlp; [|exact F3]. rewrite map_length. symmetry. apply (mapM_length _ _ _ Ep).
+    apply reads_ok_otlp, F3.
   - cbn [pushed_of] in Ep. destruct (forallb z_wellformed es) eqn:Hwf; [|discriminate].
     unfold zipkin_decode in Ed.
     destruct (zipkin_checked_from nd es es 0%N z_init rows ps (fun k e H => H) Ed Hwf Ep) as [H1 [H2 H3]].
